@@ -47,6 +47,7 @@ def run_case(case, R):
                     pending.append((conn, rid))
                     if rid in reqs:
                         reqs[rid]["written_conn"] = conn.index
+                        reqs[rid]["written_at"] = loop.time()
                     return True
             return False
         w.acc.on_request = hook
@@ -99,9 +100,11 @@ def run_case(case, R):
                     elif out[0] == "cancelled" and not r.get("we_cancelled"):
                         R.fail("C08.wrong-error", f"{where}: request {rid} was cancelled by the library", exc="CancelledError")
                 elif not t.done():
-                    age = now - r["issued"]
-                    if age > 40 + EPS:
-                        R.fail("C08.request-hangs", f"{where}: request {rid} outstanding for {age:.1f}s", how="timeout")
+                    # the 30 s timer starts when the request is written (requests queue behind one another); until then it may wait for
+                    # the connection (10 s) and for up to NCALLERS - 1 earlier requests
+                    age = now - r.get("written_at", r["issued"])
+                    if age > (30 if "written_at" in r else 10 + 30 * NCALLERS) + EPS:
+                        R.fail("C08.request-hangs", f"{where}: request {rid} outstanding for {age:.1f}s after it was {'written' if 'written_at' in r else 'issued'}", how="timeout")
                     # promptness after a disconnect of the connection that carried it
                     wc = r.get("written_conn")
                     for (dt, ci, cause) in disconnects:
